@@ -3,10 +3,23 @@ package fzf
 import (
 	"os"
 	"strings"
+	"sync"
 	"unsafe"
 )
 
+// Temporary files that have not been removed yet
+var (
+	tempFileMutex  sync.Mutex
+	tempFileNames  = make(map[string]struct{})
+	tempFileClosed bool // No more temporary files; fzf is exiting
+)
+
 func WriteTemporaryFile(data []string, printSep string) string {
+	tempFileMutex.Lock()
+	defer tempFileMutex.Unlock()
+	if tempFileClosed {
+		return ""
+	}
 	f, err := os.CreateTemp("", "fzf-temp-*")
 	if err != nil {
 		// Unable to create temporary file
@@ -17,6 +30,7 @@ func WriteTemporaryFile(data []string, printSep string) string {
 
 	f.WriteString(strings.Join(data, printSep))
 	f.WriteString(printSep)
+	tempFileNames[f.Name()] = struct{}{}
 	return f.Name()
 }
 
@@ -24,6 +38,30 @@ func removeFiles(files []string) {
 	for _, filename := range files {
 		os.Remove(filename)
 	}
+	tempFileMutex.Lock()
+	for _, filename := range files {
+		delete(tempFileNames, filename)
+	}
+	tempFileMutex.Unlock()
+}
+
+// removeTemporaryFiles removes the temporary files that are still around when
+// fzf is about to exit, e.g. those of the commands that were still running,
+// and makes sure that no more are created by the goroutines still running
+func removeTemporaryFiles() {
+	tempFileMutex.Lock()
+	for filename := range tempFileNames {
+		os.Remove(filename)
+	}
+	tempFileNames = make(map[string]struct{})
+	tempFileClosed = true
+	tempFileMutex.Unlock()
+}
+
+func allowTemporaryFiles() {
+	tempFileMutex.Lock()
+	tempFileClosed = false
+	tempFileMutex.Unlock()
 }
 
 func stringBytes(data string) []byte {
